@@ -16,6 +16,18 @@ checks = {
    technique="bounded-exhaustive enumeration of names and name pairs (all names ≤3-4 labels over small escape-heavy label sets, all 256×256 single-octet label pairs, relative×origin products) on the real label helpers against a forward-scanning reference",
    text="Every name / pair in the finite spaces is run through CountLabel, Split, SplitDomainName, NextLabel, PrevLabel, CompareDomainName, IsSubDomain, Fqdn, IsFqdn, CanonicalName, dnsutil.AddOrigin/TrimDomainName and compared with the wire label sequence; complete within bounds.",
    note="Trusted: harness/ref/name. Names are in the library's presentation form as the property states; long names are not enumerated (the helpers have no length-dependent logic)."),
+ "C04": dict(cat="exploration", eng="E1", ref="§5 C04",
+   technique="bounded-exhaustive enumeration of messages over a collision-prone name universe (every name-bearing RR type × all name assignments; section combinations; every offset around 16384; names >255 via pointer) packed by the real Msg.Pack with and without compression and decoded by an independent strict wire decoder that records every pointer; plus reference-encoded all-names-compressed messages fed to the real Msg.Unpack",
+   text="For every enumerated message: compressed and uncompressed outputs decode to the same abstract message (case preserved), compressed ≤ uncompressed, each pointer targets an earlier label start below 16384, no pointer inside RDATA of non-RFC-1035 types, and pointer-laden input is accepted for every type. Complete within the universe and deviation bound.",
+   note="Trusted: harness/ref/wire decoder/encoders, harness/bind. Universe of 11 names, ≤4 records; larger messages only through the offset sweep."),
+ "C08": dict(cat="exploration", eng="E1", ref="§5 C08",
+   technique="bounded-exhaustive enumeration (every registered type × field vectors, the C04 message spaces, all subsets of a boundary type-bitmap set, all APL prefix lengths, offset sweep around 16384) comparing the real Msg.Len/Len(rr) with the real Pack output under both compression settings, and PackBuffer over a grid of caller buffer sizes",
+   text="Len ≥ len(Pack) on every case, equality on escape-free messages of the 16 common types, no buffer-space error from Pack/PackBuffer, in-place PackBuffer whenever the buffer exceeds the uncompressed Len(). Complete within the stated spaces.",
+   note="Trusted: harness/ref/wire + bind only to build messages; lengths are the library's own outputs compared with each other."),
+ "C20": dict(cat="exploration", eng="E1", ref="§5 C20",
+   technique="exhaustive enumeration over every registered RR type of reflection-built variant sets (copy / TTL / owner-case / embedded-name-case / one-field-changed / class / other type; all ordered pairs and triples; built and wire-origin) against an identity known by construction and a wire-derived reference relation; all record lists ≤5-6 over a 10-record pool for Dedup",
+   text="IsDuplicate is checked to be reflexive, symmetric and transitive on all pairs/triples of every type's variant set, to agree with the by-construction and wire-derived equality, and Dedup to return first representatives with minimum TTL for every list in the bounded space.",
+   note="Trusted: the per-type variant generator (reflection over struct fields and tags, cross-checked against a hand-written name-field table). OPT and PrivateRR (constant-false isDuplicate) are outside the relation's domain."),
 }
 na_reason = "check not built yet in this session (planned in DESIGN.md §5); not claimed until it runs"
 m = {
